@@ -33,6 +33,9 @@ pub fn plan_for(c: &Value) -> Value {
     let indirect = c["kidsIndirect"].as_bool().unwrap();
     let variant = c["variant"].as_str().unwrap();
     let kids_of = |i: usize| -> Vec<usize> { (2..=n).filter(|k| parent[k - 1] == i).collect() };
+    // object number of node i: document order, or (reverse) the nodes below the root numbered against it
+    let reverse = c["reverse"].as_bool().unwrap_or(false);
+    let num = move |i: usize| -> u64 { if reverse && i > 1 { 10 + (n + 2 - i) as u64 } else { 10 + i as u64 } };
     fn leaves(i: usize, kind: &[&str], kids_of: &dyn Fn(usize) -> Vec<usize>) -> usize {
         if kind[i - 1] == "page" { 1 } else { kids_of(i).iter().map(|k| leaves(*k, kind, kids_of)).sum() }
     }
@@ -46,17 +49,17 @@ pub fn plan_for(c: &Value) -> Value {
         let mut d: Vec<Value> = Vec::new();
         d.push(json!(["Type", name(if kind[i - 1] == "pages" { "Pages" } else { "Page" })]));
         if i > 1 {
-            d.push(json!(["Parent", r(10 + parent[i - 1] as u64)]));
+            d.push(json!(["Parent", r(num(parent[i - 1]))]));
         }
         if kind[i - 1] == "pages" {
-            let mut ks: Vec<Value> = kids_of(i).iter().map(|k| r(10 + *k as u64)).collect();
+            let mut ks: Vec<Value> = kids_of(i).iter().map(|k| r(num(*k))).collect();
             if variant == "cycle" && Some(i) == last_inner {
                 ks.push(r(11));
             }
             if variant == "shared" {
                 if let Some(fl) = first_leaf {
                     if parent[fl - 1] == i {
-                        ks.push(r(10 + fl as u64));
+                        ks.push(r(num(fl)));
                     }
                 }
             }
@@ -85,7 +88,7 @@ pub fn plan_for(c: &Value) -> Value {
         if sets("res", i) {
             d.push(json!(["Resources", {"d": [["Font", {"d": [[format!("F{i}"), r(5)]]}]]}]));
         }
-        objects.push(json!({"n": 10 + i, "g": 0, "value": {"d": d}}));
+        objects.push(json!({"n": num(i), "g": 0, "value": {"d": d}}));
     }
     json!({"version": "1.7", "revisions": [{"objects": objects, "free": [], "xref": c["form"], "xref_n": 400,
                                            "trailer": [["Root", r(1)]]}]})
